@@ -151,7 +151,7 @@ class LetFiller(Visitor):
         sexpr = [
             "macro",
             macro.name,
-            *[param.name for param in macro.parameters],
+            *macro.parameters,
             gate_block,
         ]
         return sexpr
